@@ -336,6 +336,20 @@ SUFFIX = {"rat": "", "real": "R", "float": "F", "cplx": "C"}
 def emit_site(src: Source, site: dict, mode: str):
     fn = src.func(site["file"], site["func"])
     text = (src.repo / site["file"]).read_text()
+    if site.get("call_keywords"):
+        # ("funcname", k): the keyword names of the k-th call of `funcname`, as data (`**expr` for a forwarded dict) —
+        # theorems can then state which arguments a call forwards
+        fname, k = site["call_keywords"]
+        calls = sorted((n for n in ast.walk(fn) if isinstance(n, ast.Call) and (
+            (isinstance(n.func, ast.Name) and n.func.id == fname) or (isinstance(n.func, ast.Attribute) and n.func.attr == fname))),
+            key=lambda n: (n.lineno, n.col_offset))
+        if k >= len(calls):
+            raise Unsupported(f"call_keywords {fname}: only {len(calls)} calls")
+        names = [("**" + ast.unparse(kw.value)) if kw.arg is None else kw.arg for kw in calls[k].keywords]
+        head = f"/-- {site['file']}:{calls[k].lineno} `{site['func']}` :: keywords of `{fname}(…)` -/\n"
+        body = "[" + ", ".join('"' + x.replace('"', "'") + '"' for x in names) + "]"
+        return head + f"def {site['name']} : List String :=\n  {body}\n", {
+            "line": calls[k].lineno, "python": ", ".join(names), "sha": hashlib.sha256(ast.dump(calls[k]).encode()).hexdigest()[:16]}
     node = select(fn, tuple(site["select"]))
     for step in site.get("path", ()):  # descend into the selected expression: AST field names / list indices
         try:
@@ -392,6 +406,18 @@ def emit_table(src: Source, site: dict, mode: str):
         esc = val.replace("\\", "\\\\").replace('"', '\\"')
         return (f"/-- {site['file']} `{site['var']}: {val}` -/\ndef {site['name']} : String :=\n  \"{esc}\"\n",
                 {"value": val, "sha": hashlib.sha256(val.encode()).hexdigest()[:16]})
+    if site["kind"] == "call_sequence":
+        # the calls made by the top-level statements of a function, in source order (`x = f(...)`, `f(...)`, `return f(...)`),
+        # as the source text of the called expression — lets a theorem depend on the ORDER of operations of a pipeline
+        fn = src.func(site["file"], site["func"])
+        names = []
+        for st in fn.body:
+            v = getattr(st, "value", None)
+            if isinstance(st, (ast.Assign, ast.AnnAssign, ast.Expr, ast.Return)) and isinstance(v, ast.Call):
+                names.append(ast.unparse(v.func))
+        body = "[" + ", ".join(f'"{n}"' for n in names) + "]"
+        return (f"/-- {site['file']} `{site['func']}`: calls of the top-level statements, in order -/\ndef {site['name']} : List String :=\n  {body}\n",
+                {"rows": len(names), "sha": hashlib.sha256(body.encode()).hexdigest()[:16]})
     if site["kind"] == "yaml_scalar":  # numeric default of the configuration file, read as the exact decimal written
         val = yaml_scalar((src.repo / site["file"]).read_text(), site["var"])
         try:
